@@ -11,6 +11,6 @@ CONSTANTS
   OblLockCover = TRUE
   OblDirtyRefused = TRUE
   OblIdempotent = TRUE
-  OblFence = TRUE
+  OblFence = FALSE
 INVARIANTS TypeOK ATAtomicRollback TCCAtomic NoDirtyGlobalWrite RollbackPossible
 CHECK_DEADLOCK FALSE
